@@ -100,7 +100,8 @@ def e2e_worker(args):
     if opt.get('warc'):
         extra += ['--warc-file', 'rec', '--warc-max-size', '2000'] + (['--no-warc-compression'] if opt['warc'] == 'plain' else [])
     try:
-        res = appsim.run_crawl(['http://a.test/'], site, seed=seed, concurrent=conc, extra=extra, max_steps=400000)
+        res = appsim.run_crawl(['http://a.test/'], site, seed=seed, concurrent=conc, extra=extra, max_steps=400000,
+                               verbose_tty=bool(opt.get('tty')))
     finally:
         wa.Application._update_exit_code_from_error = orig
     return {'crashes': crashes, 'hung': res.hung, 'error': res.error, 'exit_code': res.exit_code,
@@ -135,9 +136,12 @@ def stream_e2e(ctx, n, pages_per=6):
         if rng.random() < 0.25:
             opt['warc'] = rng.choice(['gz', 'plain'])
         if rng.random() < 0.3:
+            opt['tty'] = True      # an interactive run: -v with stderr on a terminal (progress bar drawn from server-sent sizes)
+        if rng.random() < 0.3:
             opt['extra'] = rng.choice([['--content-disposition'], ['--adjust-extension'], ['--convert-links'], ['--session-timeout', '30'],
                                        ['--strip-session-id', '--escaped-fragment'], ['--save-headers'], ['--ignore-length'], ['--no-strong-crypto'],
-                                       ['--http-compression'], ['--restrict-file-names', 'windows,lower']])
+                                       ['--http-compression'], ['--restrict-file-names', 'windows,lower'], ['--server-response'], ['--progress', 'dot'],
+                                       ['--progress', 'bar'], ['--ascii-print']])
         args.append((gen_pages(rng, pages_per), rng.randrange(1 << 30), rng.choice([1, 2]), opt))
     with cf.ProcessPoolExecutor(max_workers=min(ctx.jobs, max(1, len(args))), mp_context=mp.get_context('fork')) as ex:
         results = list(ex.map(e2e_worker, args, chunksize=2))
